@@ -114,6 +114,80 @@ theorem reannounce_in_place (m : Nat) (ps : List Prov) (p q : Prov) (i : Nat)
 example : putProvList 2 [⟨1, 10, [], 5⟩, ⟨2, 20, [], 5⟩] ⟨2, 20, [7], 9⟩ =
     ([⟨1, 10, [], 5⟩, ⟨2, 20, [7], 9⟩], true) := by decide
 
+/-- **A re-announcement renews the provider's freshness.** If the provider is already stored under the key (position
+`i` of the sorted list), announcing it again at time `t` is accepted and the stored entry is the NEW record as a whole:
+until `t + ttl` (the expiry of the LAST announcement, whatever the expiry `q.expires` of the earlier one was)
+`get_providers` returns the provider with the new addresses; from `t + ttl` on it returns no provider at that
+distance. -/
+theorem reannounce_renews_expiry (cfg : Cfg) (s : Store) (k peer dist : Nat) (addrs : List Nat) (t : Nat)
+    (ps : List Prov) (q : Prov) (i : Nat)
+    (hk : lookupProv k s.providerKeys = some ps)
+    (hs : ps.Pairwise (fun a b => a.dist < b.dist)) (hq : ps[i]? = some q) (hd : q.dist = dist) :
+    let fresh : Prov := ⟨peer, dist, addrs.take cfg.maxProviderAddrs, t + cfg.providerTtl⟩
+    let s' := (putProvider cfg s k peer dist addrs t).1
+    (putProvider cfg s k peer dist addrs t).2 = true ∧
+    lookupProv k s'.providerKeys = some (ps.set i fresh) ∧
+    (∀ now, now < t + cfg.providerTtl → fresh ∈ (getProviders s' k now).2) ∧
+    (∀ now, t + cfg.providerTtl ≤ now → ∀ p ∈ (getProviders s' k now).2, p.dist ≠ dist) := by
+  intro fresh s'
+  have hput : putProvider cfg s k peer dist addrs t =
+      ({ s with providerKeys := setProvKey k (ps.set i fresh) s.providerKeys }, true) := by
+    unfold putProvider
+    simp only [hk]
+    rw [reannounce_in_place cfg.maxProvidersPerKey ps _ q i hs hq hd]
+  have hlook : lookupProv k s'.providerKeys = some (ps.set i fresh) := by
+    show lookupProv k (putProvider cfg s k peer dist addrs t).1.providerKeys = _
+    rw [hput]; exact lookupProv_setProvKey hk
+  have hi : i < ps.length := by
+    rcases Nat.lt_or_ge i ps.length with h | h
+    · exact h
+    · rw [List.getElem?_eq_none h] at hq; cases hq
+  have hmem : fresh ∈ ps.set i fresh := List.mem_iff_getElem?.2 ⟨i, by simp [hi]⟩
+  have hsorted : (ps.set i fresh).Pairwise (fun a b => a.dist < b.dist) := sorted_set hs hq hd
+  refine ⟨by rw [hput], hlook, fun now hnow => ?_, fun now hnow p hp hpd => ?_⟩
+  · unfold getProviders
+    simp only [hlook]
+    have hlive : fresh ∈ (ps.set i fresh).filter (fun p => !p.expiredAt now) := by
+      refine List.mem_filter.2 ⟨hmem, ?_⟩
+      simp only [Prov.expiredAt, Bool.not_eq_true', decide_eq_false_iff_not, Nat.not_le]
+      exact hnow
+    split
+    · rename_i he
+      have := List.isEmpty_iff.1 he
+      rw [this] at hlive; cases hlive
+    · exact hlive
+  · unfold getProviders at hp
+    simp only [hlook] at hp
+    split at hp
+    · cases hp
+    · have hpm := List.mem_filter.1 hp
+      -- same distance in a strictly sorted list: the same entry
+      have heq : p = fresh := by
+        rcases List.mem_iff_getElem?.1 hpm.1 with ⟨a, ha⟩
+        rcases List.mem_iff_getElem?.1 hmem with ⟨b, hb⟩
+        have hrel := List.pairwise_iff_getElem.1 hsorted
+        have hal : a < (ps.set i fresh).length := (List.getElem?_eq_some_iff.1 ha).1
+        have hbl : b < (ps.set i fresh).length := (List.getElem?_eq_some_iff.1 hb).1
+        have hae := (List.getElem?_eq_some_iff.1 ha).2
+        have hbe := (List.getElem?_eq_some_iff.1 hb).2
+        have hfd : fresh.dist = dist := rfl
+        rcases Nat.lt_trichotomy a b with h | h | h
+        · have := hrel a b hal hbl h; rw [hae, hbe] at this; omega
+        · subst h; rw [ha] at hb; exact Option.some.inj hb
+        · have := hrel b a hbl hal h; rw [hae, hbe] at this; omega
+      have hexp := hpm.2
+      rw [heq] at hexp
+      simp only [Prov.expiredAt, fresh, Bool.not_eq_true', decide_eq_false_iff_not, Nat.not_le] at hexp
+      omega
+
+/-- Non-vacuity: ttl 10, first announcement at 1000, re-announced at 1006 with other addresses: at 1012 (the first
+expiry has passed) the provider is returned with the new addresses, at 1016 it is not. -/
+example :
+    let cfg : Cfg := ⟨4, 4, 4, 4, 4, 10⟩
+    let s1 := (putProvider cfg {} 3 7 20 [1] 1000).1
+    let s2 := (putProvider cfg s1 3 7 20 [5, 6] 1006).1
+    (getProviders s2 3 1012).2 = [⟨7, 20, [5, 6], 1016⟩] ∧ (getProviders s2 3 1016).2 = [] := by decide
+
 /-- **Only the closest are retained** (one announcement). For a sorted list within the per-key
 bound and a provider not yet in it, the new list is the `m` closest of the old providers plus the
 new one: the sorted insertion truncated to `m`; the announcement is refused exactly when the new
@@ -257,6 +331,8 @@ open Litep2pVerif.Props.C17 in
 #print axioms ttl_monotone
 open Litep2pVerif.Props.C17 in
 #print axioms reannounce_in_place
+open Litep2pVerif.Props.C17 in
+#print axioms reannounce_renews_expiry
 open Litep2pVerif.Props.C17 in
 #print axioms providers_closest_step
 open Litep2pVerif.Props.C17 in
